@@ -490,6 +490,11 @@ func TestC02_MultiFault(t *testing.T) {
 					return &sim.Fault{CloseConn: true}
 				case "badjson":
 					return &sim.Fault{BadJSON: true}
+				case "lag1", "lag2":
+					// answered by a replica that is one or two blocks behind
+					if ri.Kind != "latest" {
+						return &sim.Fault{Lag: int(cur.rpc[i][3] - '0')}
+					}
 				}
 			}
 			return nil
@@ -536,7 +541,7 @@ func TestC02_MultiFault(t *testing.T) {
 					if rapid.Bool().Draw(rt, "dbfault") {
 						cur.db[rapid.IntRange(0, 14).Draw(rt, "dbop")] = rapid.SampledFrom([]fakepg.FaultKind{fakepg.ErrReply, fakepg.DropBefore, fakepg.DropAfter}).Draw(rt, "dbkind")
 					} else {
-						cur.rpc[rapid.IntRange(0, 8).Draw(rt, "rpcop")] = rapid.SampledFrom([]string{"503", "close", "badjson"}).Draw(rt, "rpckind")
+						cur.rpc[rapid.IntRange(0, 8).Draw(rt, "rpcop")] = rapid.SampledFrom([]string{"503", "close", "badjson", "lag1", "lag2"}).Draw(rt, "rpckind")
 					}
 					nfaults++
 				}
